@@ -524,6 +524,193 @@ theorem mdBody_self (body : List (String × Obj)) (i : NodeInfo) (hi : i.body = 
       have hbb : b.setKids b.kids = b := by cases b <;> rfl
       rw [hbb, areplace_same_value "metadatabundle" b body hb]
 
+/-! ### the third phase of a list save: all rooted items of one root, one after the other -/
+
+theorem isEMD_encodeRoots (sess : Session) (u0 : String) (Rs : List Tree) (hw : rootsWF [] Rs = true) (hne : Rs ≠ []) :
+    isEMDFile (.group (headerAttrs sess u0) (encodeRoots Rs)) = true := by
+  have hrg := rootGroups_encodeRoots (headerAttrs sess u0) Rs [] hw
+  have h1 : alookup "emd_group_type" (headerAttrs sess u0) = some (.str "file") := by simp [headerAttrs, alookup]
+  have h2 : alookup "version_major" (headerAttrs sess u0) = some (.int 1) := by simp [headerAttrs, alookup]
+  have h3 : alookup "version_minor" (headerAttrs sess u0) = some (.int 0) := by simp [headerAttrs, alookup]
+  simp only [isEMDFile, hrg, Obj.attrs, h1, h2, h3, beq_self_eq_true, Bool.true_and, Bool.not_eq_true',
+    List.isEmpty_eq_false_iff, ne_eq, List.map_eq_nil_iff]
+  exact hne
+
+theorem encodeRoots_append (a b : List Tree) : encodeRoots (a ++ b) = encodeRoots a ++ encodeRoots b := by
+  induction a with
+  | nil => rfl
+  | cons x xs ih => simp [encodeRoots, ih]
+
+theorem alookup_encodeRoots_last (L : List Tree) (C : Tree) (h : C.name ∉ L.map Tree.name) :
+    alookup C.name (encodeRoots (L ++ [C])) = some (encode C) := by
+  rw [encodeRoots_append, alookup_append, alookup_encodeRoots_none L C.name h]
+  simp [encodeRoots, alookup]
+
+theorem areplace_encodeRoots_last (L : List Tree) (C C' : Tree) (hn : C'.name = C.name) (h : C.name ∉ L.map Tree.name) :
+    areplace C.name (encode C') (encodeRoots (L ++ [C])) = encodeRoots (L ++ [C']) := by
+  rw [encodeRoots_append, encodeRoots_append]
+  have hk : C.name ∉ akeys (encodeRoots L) := by
+    intro hm
+    have := alookup_isSome_of_mem_akeys C.name (encodeRoots L) hm
+    rw [alookup_encodeRoots_none L C.name h] at this
+    cases this
+  rw [areplace_append_right C.name _ _ _ hk]
+  simp [encodeRoots, areplace, hn]
+
+theorem rootsWF_replace_last : ∀ (L : List Tree) (C C' : Tree), rootsWF [] (L ++ [C]) = true → C'.rootedWF CT DT = true →
+    C'.name = C.name → rootsWF [] (L ++ [C']) = true := by
+  intro L C C' h hC' hn
+  have key : ∀ (l : List Tree) (tk : List String), rootsWF tk (l ++ [C]) = true → rootsWF tk (l ++ [C']) = true := by
+    intro l
+    induction l with
+    | nil =>
+      intro tk hx
+      simp only [List.nil_append, rootsWF, Bool.and_eq_true] at hx ⊢
+      rw [hn]
+      exact ⟨⟨hx.1.1, hC'⟩, trivial⟩
+    | cons x xs ihx =>
+      intro tk hx
+      simp only [List.cons_append, rootsWF, Bool.and_eq_true] at hx ⊢
+      exact ⟨hx.1, ihx _ hx.2⟩
+  exact key L [] h
+
+/-- the node alone (without its branch) that a rooted list item `r/m` is written as -/
+def aloneOf (r : Tree) (m : String) : Tree :=
+  match r.at [m] with
+  | some D => .mk D.info []
+  | none => .mk (rootInfoFor m) []
+
+/-- C10, the third phase for the rooted items of ONE root `r` (direct children `ms` of `r`, distinct names): starting from
+    a file whose last tree is the copy of `r` (its info, the children written so far), the saves
+    `save(node, 'ao', tree=False, emdpath=r.name)` one after the other leave the file holding, under `r.name`, the copy with
+    exactly the nodes `ms` ALONE appended in list order — every other tree and the header untouched -/
+theorem C10_rooted_items_fold (sess : Session) (uuid u0 path : String) (L : List Tree) (r : Tree)
+    (hr : r.rootedWF CT DT = true)
+    (hsane : ∀ b, alookup "metadatabundle" r.info.body = some b →
+      b.isGroup = true ∧ (akeys b.kids).Nodup ∧ b.kids.all (fun kv => kv.2.gtype == some "metadata") = true) :
+    ∀ (ms : List String) (done : List Tree) (fs : FS),
+    rootsWF [] (L ++ [.mk r.info done]) = true → r.name ∉ L.map Tree.name →
+    (∀ m ∈ ms, (findKid m r.kids).isSome = true ∧ m ≠ "metadatabundle") →
+    ms.Nodup → (∀ m ∈ ms, m ∉ names done) → "metadatabundle" ∉ names done →
+    fsLookup fs path = some (.h5 (.group (headerAttrs sess u0) (encodeRoots (L ++ [.mk r.info done])))) →
+    (ms.map (fun m => (r, [m]))).foldlM (fun fs (rt : Tree × List String) =>
+        save sess uuid fs path (.rooted rt.1 rt.2) "ao" .no (some rt.1.name)) fs
+      = .ok (fsSet fs path (.h5 (.group (headerAttrs sess u0)
+          (encodeRoots (L ++ [.mk r.info (done ++ ms.map (aloneOf r))]))))) := by
+  intro ms
+  induction ms with
+  | nil =>
+    intro done fs _ _ _ _ _ _ hfile
+    simp only [List.map_nil, List.foldlM, pure, Except.pure, List.append_nil]
+    congr 1
+    unfold fsLookup at hfile
+    unfold fsSet aset
+    rw [hfile]
+    exact (areplace_self path _ fs hfile).symm
+  | cons m ms ih =>
+    intro done fs hwf hrL hms hnd hfresh hmdn hfile
+    simp only [List.nodup_cons] at hnd
+    obtain ⟨hkid, hmmd⟩ := hms m List.mem_cons_self
+    obtain ⟨D, hD⟩ := Option.isSome_iff_exists.mp hkid
+    have hat : r.at [m] = some D := by simp [Tree.at, hD]
+    -- the copy so far
+    have hCin : Tree.mk r.info done ∈ L ++ [Tree.mk r.info done] := by simp
+    have hCw : (Tree.mk r.info done).rootedWF CT DT = true := by
+      have key : ∀ (l : List Tree) (tk : List String), rootsWF tk l = true → ∀ t ∈ l, t.rootedWF CT DT = true := by
+        intro l
+        induction l with
+        | nil => intro _ _ t ht; cases ht
+        | cons x xs ihx =>
+          intro tk hx t ht
+          simp only [rootsWF, Bool.and_eq_true] at hx
+          cases ht with
+          | head => exact hx.1.2
+          | tail _ h' => exact ihx _ hx.2 t h'
+      exact key _ [] hwf _ hCin
+    have hCname : (Tree.mk r.info done).name = r.name := rfl
+    have hlook : alookup (Tree.mk r.info done).name (Obj.group (headerAttrs sess u0) (encodeRoots (L ++ [.mk r.info done]))).kids
+        = some (encode (.mk r.info done)) := alookup_encodeRoots_last L _ hrL
+    have hrg : (rootGroups (Obj.group (headerAttrs sess u0) (encodeRoots (L ++ [.mk r.info done])))).contains
+        (Tree.mk r.info done).name = true := by
+      rw [rootGroups_encodeRoots _ _ [] hwf]
+      simp
+    have hemd := isEMD_encodeRoots sess u0 (L ++ [.mk r.info done]) hwf (by simp)
+    have hself := mdBody_self r.info.body r.info rfl hsane
+    have hnewbody : m ∉ akeys r.info.body := by
+      simp only [Tree.rootedWF, Bool.and_eq_true] at hr
+      have := kidsWF_find (ct := CT) (dt := DT) r.kids _ D (Tree.wf_kids hr.1.1) hD
+      exact this.2.1
+    have hstep := C10_rooted_item sess uuid path fs _ (.mk r.info done) r D r.info.body m hfile hemd hCw hr rfl hlook hrg
+      hmdn hself hat (hfresh m List.mem_cons_self) hnewbody
+    -- the new copy
+    have hC' : (withBody (.mk r.info done) r.info.body).addKid (.mk D.info []) = .mk r.info (done ++ [aloneOf r m]) := by
+      simp [withBody, Tree.addKid, aloneOf, hat]
+    rw [hC'] at hstep
+    have hfile' : ∀ fs', fs' = fsSet fs path (.h5 ((Obj.group (headerAttrs sess u0) (encodeRoots (L ++ [.mk r.info done]))).setKids
+        (areplace (Tree.mk r.info done).name (encode (.mk r.info (done ++ [aloneOf r m])))
+          (Obj.group (headerAttrs sess u0) (encodeRoots (L ++ [.mk r.info done]))).kids))) →
+        fsLookup fs' path = some (.h5 (.group (headerAttrs sess u0) (encodeRoots (L ++ [.mk r.info (done ++ [aloneOf r m])])))) := by
+      intro fs' e
+      rw [e, fsLookup_fsSet]
+      simp only [Obj.setKids, Obj.kids]
+      rw [areplace_encodeRoots_last L (.mk r.info done) (.mk r.info (done ++ [aloneOf r m])) rfl hrL]
+    -- well-formedness of the list with the new copy
+    have hwf' : rootsWF [] (L ++ [.mk r.info (done ++ [aloneOf r m])]) = true := by
+      have hDw := wf_at [m] r D (by simp only [Tree.rootedWF, Bool.and_eq_true] at hr; exact hr.1.1) hat
+      have hal : (aloneOf r m).wf CT DT = true := by
+        simp only [aloneOf, hat, Tree.wf, Bool.and_eq_true]
+        exact ⟨Tree.wf_info hDw.1, by simp [kidsWF]⟩
+      have haln : (aloneOf r m).name = m := by
+        simp only [aloneOf, hat]
+        have := at_name [] r D m hat
+        simpa [Tree.name] using this
+      have hCw2 : (Tree.mk r.info (done ++ [aloneOf r m])).rootedWF CT DT = true := by
+        simp only [Tree.rootedWF, Bool.and_eq_true, beq_iff_eq, Tree.info_mk] at hCw ⊢
+        refine ⟨⟨?_, hCw.1.2⟩, hCw.2⟩
+        have hw := hCw.1.1
+        simp only [Tree.wf, Bool.and_eq_true] at hw ⊢
+        refine ⟨hw.1, kidsWF_append (aloneOf r m) done _ hw.2 (by rw [haln]; exact hnewbody)
+          (by rw [haln]; exact hfresh m List.mem_cons_self) hal ?_⟩
+        simp only [aloneOf, hat, Tree.info_mk]
+        exact hDw.2 (by simp)
+      exact rootsWF_replace_last L (.mk r.info done) _ hwf hCw2 rfl
+    have hnext := ih (done ++ [aloneOf r m])
+      (fsSet fs path (.h5 ((Obj.group (headerAttrs sess u0) (encodeRoots (L ++ [.mk r.info done]))).setKids
+        (areplace (Tree.mk r.info done).name (encode (.mk r.info (done ++ [aloneOf r m])))
+          (Obj.group (headerAttrs sess u0) (encodeRoots (L ++ [.mk r.info done]))).kids))))
+      hwf' hrL (fun x hx => hms x (List.mem_cons_of_mem _ hx)) hnd.2
+      (fun x hx => by
+        simp only [names, List.map_append, List.mem_append, List.map_cons, List.map_nil, List.mem_singleton, not_or]
+        refine ⟨by simpa [names] using hfresh x (List.mem_cons_of_mem _ hx), ?_⟩
+        have haln : (aloneOf r m).name = m := by
+          simp only [aloneOf, hat]
+          have := at_name [] r D m hat
+          simpa [Tree.name] using this
+        rw [haln]
+        intro e; subst e; exact hnd.1 hx)
+      (by
+        simp only [names, List.map_append, List.mem_append, List.map_cons, List.map_nil, List.mem_singleton, not_or]
+        refine ⟨by simpa [names] using hmdn, ?_⟩
+        have haln : (aloneOf r m).name = m := by
+          simp only [aloneOf, hat]
+          have := at_name [] r D m hat
+          simpa [Tree.name] using this
+        rw [haln]; exact fun e => hmmd e.symm)
+      (hfile' _ rfl)
+    simp only [List.map_cons, List.foldlM, hstep, bind, Except.bind]
+    rw [hnext, fsSet_fsSet]
+    simp [List.append_assoc]
+
+-- non-vacuity of `C10_rooted_items_fold`: the rooted items `a` and `onlyrt` of the example runtime tree `exR` (whose root
+-- carries a two-entry metadata bundle), written after another tree, meet every hypothesis
+example : rootsWF [] ([exTree] ++ [.mk exR.info []]) = true ∧ exR.rootedWF CT DT = true ∧
+    (exR.name ∉ [exTree].map Tree.name) ∧
+    (["a", "onlyrt"].all (fun m => (findKid m exR.kids).isSome && m != "metadatabundle")) = true ∧
+    (match alookup "metadatabundle" exR.info.body with
+     | some b => b.isGroup && decide ((akeys b.kids).Nodup) && b.kids.all (fun kv => kv.2.gtype == some "metadata")
+     | none => true) = true ∧
+    (["a", "onlyrt"].map (aloneOf exR)).map Tree.name = ["a", "onlyrt"] := by decide
+
 -- non-vacuity of `C10_save_list`: a mixed list (two Roots, an unrooted node, an array, a dict) meets its hypotheses;
 -- the file then holds root_savedlist (node, array_0, dictionary_0), then the two given trees
 def exItems : List Item :=
